@@ -303,6 +303,11 @@ def list_method(eng, l, name, args, kw, line):
         eng.run.assume(z3.And(0 <= i, i < n, da[l.ref][i] == x,
                               z3.ForAll([j], z3.Implies(z3.And(0 <= j, j < i), da[l.ref][j] != x))))
         row = eng.def_array([j], z3.If(j >= i, da[l.ref][j + 1], da[l.ref][j]))
+        # implied by the definition of row (old index -> new index), stated with a trigger on the OLD row so that
+        # "every other element is still there" is found by instantiation
+        orow = da[l.ref]
+        eng.run.assume(z3.ForAll([j], z3.Implies(z3.And(0 <= j, j < n, j != i), row[z3.If(j < i, j, j - 1)] == orow[j]),
+                                 patterns=[orow[j]]), silent=True)
         eng.heap.set(nm, z3.Store(da, l.ref, row))
         eng.heap.set('L.len', z3.Store(ln, l.ref, n - 1))
         return None
